@@ -15,12 +15,28 @@ IDW = 16
 
 
 def op_reads(op):
+    if op[0] == "intrinsic":
+        return [s_[1] for e in (op[1].get("read") or []) for s_ in il2smt.scalars_of(e)]
     exprs = {"assign": op[2:], "store": op[1:], "load": op[2:], "branch": op[1:]}.get(op[0], [])
     return [s_[1] for e in exprs for s_ in il2smt.scalars_of(e)]
 
 
 def op_writes(op):
+    if op[0] == "intrinsic" and op[1].get("written"):
+        return [w_[1] for w_ in op[1]["written"] if w_[0] == "scalar"]
     return [op[1][1]] if op[0] in ("assign", "load") else []
+
+
+def extra_intr(gen, blocks):
+    """A declared intrinsic that writes several scalars, followed somewhere by an overwrite of only one of them and a read of another."""
+    r = gen.rnd
+    if r.random() < 0.5:
+        w = gen.widths[0]
+        b = r.choice(blocks)
+        pos = r.randint(0, len(b["instructions"]))
+        b["instructions"].insert(pos, {"op": gen.intrinsic(True, multi=True), "address": 0x2008})
+        b["instructions"].insert(pos + 1, {"op": ["assign", ilgen.S("x", w), ilgen.C(3, w)], "address": 0x200c})
+        blocks[-1]["instructions"].append({"op": ["assign", ilgen.S("a", w), ["add", ilgen.S("d", w), ilgen.S("b", w)]], "address": 0x2010})
 
 
 def check_one(item):
@@ -86,8 +102,10 @@ def check_one(item):
     # ---- solver part
     k = ilcheck.k_for(f, tier)
     ctx = il2smt.Ctx()
+    ctx.intrinsic_havoc = True
     lane = fbmc.Lane(f["cfg"], ctx)
-    groups = {"rd": [], "ud-other": [], "ud-multi": [], "ud-self": []}
+    groups = {"rd": [], "ud-other": [], "ud-multi": [], "ud-self": [], "ud-mw": []}
+    mw_ids = [ids[l_] for l_, i_ in ins_at.items() if len(op_writes(i_["op"])) >= 2]
 
     def last(st, s):
         return st.ghost.get("lw:" + s)
@@ -111,7 +129,11 @@ def check_one(item):
             if lw is None: continue
             allowed = [ids[d] for d in defs if d in ins_at and s in op_writes(ins_at[d]["op"])]
             grp = "ud-multi" if len(reads) >= 2 else ("ud-self" if s in wr else "ud-other")
-            groups[grp].append((f"use_def({loc}) misses the last writer of {s}", z3.And(gg, lw != 0, *[lw != z3.BitVecVal(i, IDW) for i in allowed])))
+            by_mw = z3.Or(*[lw == z3.BitVecVal(i, IDW) for i in mw_ids]) if mw_ids else z3.BoolVal(False)
+            miss = z3.And(gg, lw != 0, *[lw != z3.BitVecVal(i, IDW) for i in allowed])
+            groups[grp].append((f"use_def({loc}) misses the last writer of {s}", z3.And(miss, z3.Not(by_mw))))
+            if mw_ids:
+                groups["ud-mw"].append((f"use_def({loc}) misses the last writer of {s}, an instruction that writes several scalars", z3.And(miss, by_mw)))
 
     class H(fbmc.Hooks):
         def before(self, b, pos, ins, g, sts):
@@ -194,7 +216,14 @@ def concrete_confirm(f, tabs, which, scm, mem_read, k, gname):
                     if want:
                         r = miss("usedef", loc, sorted(set(rds)))
                         if r: return True, r
-                kind, _ = replay.exec_op(st, ins["op"])
+                if ins["op"][0] == "intrinsic" and ins["op"][1].get("written") is not None:
+                    hv = getattr(mem_read, "havoc", {}) or {}
+                    for w_ in ins["op"][1]["written"]:
+                        if w_[0] == "scalar":
+                            st.sc[st.key(w_)] = (hv.get(f"havoc!{step}!{b}!{ins['index']}!{w_[1]}", 0) & ((1 << w_[2]) - 1), w_[2])
+                    kind = "fall"
+                else:
+                    kind, _ = replay.exec_op(st, ins["op"])
                 for s in op_writes(ins["op"]):
                     last[s] = loc
                 if kind != "fall":
@@ -223,7 +252,8 @@ def concrete_confirm(f, tabs, which, scm, mem_read, k, gname):
 
 ROLE = {"ud-multi": "use_def/last writer missing for a reader of two or more scalar occurrences",
         "ud-self": "use_def/last writer missing for a reader that also writes the scalar",
-        "ud-other": "use_def/last writer missing", "rd": "reaching_definitions/last writer missing"}
+        "ud-other": "use_def/last writer missing", "rd": "reaching_definitions/last writer missing",
+        "ud-mw": "use_def/last writer missing when the last writer is an instruction that writes several scalars"}
 
 
 def main():
@@ -236,6 +266,7 @@ def main():
     hr = random.Random(rep.seed + 5)
     for f in holed:
         ilgen.add_holes(f, hr); f["meta"]["holes"] = True
+    fs += ilgen.corpus(3900 + rep.seed, n // 3, profile="mixed", widths=(32,), extra=extra_intr)
     fs += holed + ilcheck.lifted_corpus(rep.tier)
     items = [{"f": f, "tier": rep.tier} for f in fs]
     results = common.pmap(check_one, items, chunksize=2)
@@ -254,9 +285,10 @@ def main():
         rep.ground["checked"] += r.get("n_ground", 0)
         for gmsg in r.get("ground", []):
             rep.ground["failed"] += 1
-            kind = "reaching_definitions/imprecise entry" if gmsg.startswith("imprecise") else ("def_use/not the inverse of use_def" if gmsg.startswith("def_use") else "reaching_definitions/malformed entry")
+            has_mw = any(len(op_writes(i_["op"])) >= 2 for b_ in ilcheck.view(it["f"])["cfg"]["blocks"] for i_ in b_["instructions"])
+            kind = ("reaching_definitions/imprecise entry" + ("/function with an instruction that writes several scalars" if has_mw else "")) if gmsg.startswith("imprecise") else ("def_use/not the inverse of use_def" if gmsg.startswith("def_use") else "reaching_definitions/malformed entry")
             rep.violation(kind, f"{it['f']['meta']}: {gmsg}", {"function": r["function"], "ground": gmsg})
-        for gname in ("rd", "ud-other", "ud-multi", "ud-self"):
+        for gname in ("rd", "ud-other", "ud-multi", "ud-self", "ud-mw"):
             v = r["verdicts"].get(gname)
             if v == "none": continue
             counts[v] = counts.get(v, 0) + 1
@@ -277,7 +309,7 @@ def main():
     rep.bounds = {"functions": len(items), "k_block_steps": "3x/6x longest acyclic path"}
     rep.finish({"states": max(1, states), "transitions": max(1, trans), "traces_validated_against_impl": counts.get("sat", 0),
                 "explanation": "states = table entries checked by path search (ground), transitions = solver obligations (location x scalar) over all executions <= k"},
-               assumptions=["smt/ilsem.py is the IL's meaning (C04)", "paths end at indirect branches and intrinsics"])
+               assumptions=["smt/ilsem.py is the IL's meaning (C04)", "paths end at indirect branches and at intrinsics without declared effects; an intrinsic with declared effects writes unknown values to exactly the scalars it declares"])
 
 
 if __name__ == "__main__":
